@@ -27,12 +27,18 @@ type ev struct {
 	note       bool
 	key        uint8
 	ch0        bool // use channel 0 whatever the track (the same voice doubled on two tracks)
+	dup        bool // (shared songs) the first bar's event once more in the second bar
 }
 
 type song struct {
 	res  uint16
 	sigs []sig
 	evs  []ev
+	// shared: the second bar repeats the first (the very same *Event values,
+	// its Events slice continuing the first bar's backing array) and adds its
+	// own events behind them, later positions first; evs holds the repeated
+	// events a second time with bar = 1 and dup set.
+	shared bool
 }
 
 func (s song) describe() map[string]interface{} {
@@ -45,7 +51,7 @@ func (s song) describe() map[string]interface{} {
 		es = append(es, fmt.Sprintf("bar%d trk%d pos%d dur%d note=%v", e.bar, e.track, e.pos, e.dur, e.note))
 	}
 	return map[string]interface{}{"kind": "song", "resolution": s.res, "signatures": sg, "events": es,
-		"raw_sigs": s.sigs2raw(), "raw_evs": s.evs2raw()}
+		"raw_sigs": s.sigs2raw(), "raw_evs": s.evs2raw(), "second_bar_repeats_first": s.shared}
 }
 
 func (s song) sigs2raw() [][2]int {
@@ -66,6 +72,9 @@ func (s song) evs2raw() [][7]int {
 		c0 := 0
 		if e.ch0 {
 			c0 = 1
+		}
+		if e.dup {
+			c0 |= 2
 		}
 		r = append(r, [7]int{e.bar, e.track, e.pos, e.dur, n, int(e.key), c0})
 	}
@@ -226,18 +235,69 @@ func judge(s song) {
 		// track names that coincide with names the export uses itself
 		sq.TrackNames = []string{"bars", "track-0", "bars"}
 	}
+	var firstBar []*sequencer.Event
 	for i, sg := range s.sigs {
 		b := sequencer.Bar{TimeSig: [2]uint8{sg.n, sg.d}}
+		if s.shared && i == 0 {
+			b.Events = make([]*sequencer.Event, 0, 16)
+		}
+		if s.shared && i == 1 {
+			b.Events = firstBar[:len(firstBar)] // same events, same backing array
+		}
+		var own []*sequencer.Event
 		for _, e := range s.evs {
-			if e.bar == i {
-				b.Events = append(b.Events, &sequencer.Event{TrackNo: e.track, Pos: uint8(e.pos), Duration: uint8(e.dur), Message: msgOf(e)})
+			if e.bar == i && !e.dup {
+				own = append(own, &sequencer.Event{TrackNo: e.track, Pos: uint8(e.pos), Duration: uint8(e.dur), Message: msgOf(e)})
 			}
 		}
+		if s.shared && i == 1 {
+			for k := len(own) - 1; k >= 0; k-- {
+				b.Events = append(b.Events, own[k])
+			}
+		} else {
+			b.Events = append(b.Events, own...)
+		}
+		if i == 0 {
+			firstBar = b.Events
+		}
 		sq.AddBar(b)
+	}
+	// the song as it is before the export: which events every bar holds, in
+	// which order, with which values
+	type evSnap struct {
+		p *sequencer.Event
+		v sequencer.Event
+	}
+	var snap [][]evSnap
+	for _, b := range sq.Bars() {
+		var l []evSnap
+		for _, e := range b.Events {
+			l = append(l, evSnap{e, *e})
+		}
+		snap = append(snap, l)
 	}
 	want, end, tracks := expected(s)
 	var f0, f1 smf.SMF
 	c := engine.Catch(func() { f0 = sq.ToSMF0(); f1 = sq.ToSMF1() })
+	if !c.Panicked {
+		bars := sq.Bars()
+		changed := len(bars) != len(snap)
+		for i := 0; !changed && i < len(bars); i++ {
+			if len(bars[i].Events) != len(snap[i]) {
+				changed = true
+				break
+			}
+			for k, e := range bars[i].Events {
+				if e != snap[i][k].p || e.TrackNo != snap[i][k].v.TrackNo || e.Pos != snap[i][k].v.Pos || e.Duration != snap[i][k].v.Duration || string(e.Message) != string(snap[i][k].v.Message) {
+					changed = true
+				}
+			}
+		}
+		if changed {
+			report("export:modifies-the-song", s, "after ToSMF0 and ToSMF1 the bars of the song hold other events, or in another order, than before")
+			return
+		}
+	}
 	if !c.Panicked && len(s.sigs) <= 3 {
 		// exporting is repeatable: a second export of the same song gives the same files
 		var g0, g1 smf.SMF
@@ -615,7 +675,7 @@ func signatureSpace(first int) {
 }
 
 // eventSpace: event placements for a few signature sequences.
-func eventSpace(si int) {
+func eventSpace(si int, onlyRes uint16) {
 	seqs := [][]sig{
 		{{4, 4}},
 		{{3, 4}, {0, 0}},
@@ -664,6 +724,9 @@ func eventSpace(si int) {
 	}
 	// the same voice doubled on two tracks: same channel, same key, ending on the same tick
 	for _, res := range resolutions {
+		if res != onlyRes {
+			continue
+		}
 		for _, p := range [][4]int{{0, 4, 2, 2}, {0, 2, 0, 2}, {1, 3, 0, 4}} {
 			judge(song{res: res, sigs: ss, evs: []ev{
 				{bar: 0, track: 0, pos: p[0], dur: p[1], note: true, key: 64, ch0: true},
@@ -672,6 +735,9 @@ func eventSpace(si int) {
 	}
 	// all eight tracks at once (and a track number beyond the named ones)
 	for _, res := range resolutions {
+		if res != onlyRes {
+			continue
+		}
 		var evs []ev
 		for tr := 0; tr < 8; tr++ {
 			evs = append(evs, ev{bar: tr % len(ss), track: tr, pos: tr % 3, dur: 1 + tr%2, note: true, key: uint8(50 + tr)})
@@ -679,7 +745,39 @@ func eventSpace(si int) {
 		judge(song{res: res, sigs: ss, evs: evs})
 		judge(song{res: res, sigs: ss, evs: evs[3:]})
 	}
+	// the second bar repeats the first one (same *Event values, same backing
+	// array) and adds events of its own, later positions first
+	if len(ss) >= 2 && lens[0] == lens[1] {
+		for _, res := range resolutions {
+			if res != onlyRes {
+				continue
+			}
+			for i := range opts {
+				if opts[i].bar != 0 || opts[i].dur > total-lens[0]-opts[i].pos {
+					continue
+				}
+				d := opts[i]
+				d.bar, d.dup = 1, true
+				judge(song{res: res, sigs: ss, shared: true, evs: []ev{opts[i], d}})
+				for j := range opts {
+					if opts[j].bar != 1 || (i+j)%3 != 0 {
+						continue
+					}
+					judge(song{res: res, sigs: ss, shared: true, evs: []ev{opts[i], d, opts[j]}})
+					for k := j + 1; k < len(opts); k += 5 {
+						if opts[k].bar == 1 && opts[k].pos < opts[j].pos {
+							judge(song{res: res, sigs: ss, shared: true, evs: []ev{opts[i], d, opts[j], opts[k]}})
+						}
+					}
+					ctx.Add("shared_bar_songs", 1)
+				}
+			}
+		}
+	}
 	for _, res := range resolutions {
+		if res != onlyRes {
+			continue
+		}
 		judge(song{res: res, sigs: ss})
 		for i := range opts {
 			judge(song{res: res, sigs: ss, evs: []ev{opts[i]}})
@@ -738,9 +836,10 @@ func main() {
 		if l, ok := m["raw_evs"].([]interface{}); ok {
 			for _, x := range l {
 				p := x.([]interface{})
-				s.evs = append(s.evs, ev{bar: int(p[0].(float64)), track: int(p[1].(float64)), pos: int(p[2].(float64)), dur: int(p[3].(float64)), note: p[4].(float64) == 1, key: uint8(p[5].(float64)), ch0: p[6].(float64) == 1})
+				s.evs = append(s.evs, ev{bar: int(p[0].(float64)), track: int(p[1].(float64)), pos: int(p[2].(float64)), dur: int(p[3].(float64)), note: p[4].(float64) == 1, key: uint8(p[5].(float64)), ch0: int(p[6].(float64))&1 == 1, dup: int(p[6].(float64))&2 == 2})
 			}
 		}
+		s.shared, _ = m["second_bar_repeats_first"].(bool)
 		judge(s)
 		ctx.Finish("replay")
 	}
@@ -751,7 +850,7 @@ func main() {
 		cp.Check(ctx, "export", cc.Export())
 	})
 	ctx.Jobs("signatures", n, func(j int) { signatureSpace(j) })
-	ctx.Jobs("events", 7, func(j int) { eventSpace(j) })
+	ctx.Jobs("events", 7*len(resolutions), func(j int) { eventSpace(j/len(resolutions), resolutions[j%len(resolutions)]) })
 	ctx.Jobs("long-songs", 1, func(int) { longSongs() })
 	ctx.Set("signatures", n)
 	ctx.Sample(map[string]interface{}{"song": "bars 6/8, 9/8, 12/8; note on track 7 at the last 32nd of bar 2 lasting across the bar line", "resolution": 96})
